@@ -521,6 +521,28 @@ def h_other_type(tname):
         prove(f"not_equal_to_{type(other).__name__}", not r if not isinstance(r, symx.Sym) else Not(r))
 
 
+def h_clone(tname):
+    """a value and its clone (what unpickling hands back: every component rebuilt, nothing shared
+    by identity) are equal, hash equal and share a token.  The clone is made by copy.deepcopy --
+    the same __reduce_ex__ protocol pickle uses, without the byte stream (which would concretise
+    the symbolic fields); the replay pickles for real"""
+    import copy
+
+    mk, hashable, tokened = TYPES[tname]
+    a = mk("a")
+    if symx.concrete_mode():
+        import pickle
+
+        b = pickle.loads(pickle.dumps(a))
+    else:
+        b = copy.deepcopy(a)
+    prove("clone_equal", And(as_bool(a == b), as_bool(b == a)) if not symx.concrete_mode() else (a == b and b == a))
+    if hashable:
+        prove("clone_same_hash", struct_eq(do_hash(a), do_hash(b)) if not symx.concrete_mode() else hash(a) == hash(b))
+    if tokened:
+        prove("clone_same_token", _tok_eq(token_of(a), token_of(b)))
+
+
 ALL = list(TYPES)
 
 OBLIGATIONS = [
@@ -535,6 +557,8 @@ OBLIGATIONS = [
     Ob("E5_crs_pickle", h_crs_pickle, fixed(), descr="CRS pickle state over the abstract library: the clone is equal and has the same string form, hash and token",
        functions=("odc.geo.crs.CRS.__getstate__", "odc.geo.crs.CRS.__setstate__", "odc.geo.crs.CRS.__init__", "odc.geo.crs.CRS.__dask_tokenize__"),
        bounds="one CRS with symbolic abstract attributes (see E4), .epsg read or not", stubs=("abstract pyproj (E4)", "_make_crs contract: parsing a printed CRS string back is lossless; 'EPSG:n' gives the authority CRS of code n; the replay pickles real CRS objects built from 9 specifications"), setup=setup_crs),
+    Ob("E6_clone", h_clone, fixed(*[dict(tname=t) for t in TYPES]), descr="per type: a value and its unpickled clone (no component shared by identity) are equal, hash equal, share a token",
+       functions=tuple(f"{t}.__eq__" for t in TYPES), bounds="symbolic fields as in E1; clone by the __reduce_ex__ protocol (copy.deepcopy) in the symbolic run, by pickle in the replay", setup=setup),
     Ob("E2_transitive", h_triple, fixed(*[dict(tname=t) for t in ALL]), descr="per type: == transitive over three values", functions=tuple(f"{t}.__eq__" for t in ALL),
        bounds="three values per type", setup=setup, timeout_ms=20000),
     Ob("E3_other_types", h_other_type, fixed(*[dict(tname=t) for t in ALL if t not in ("Shape2d", "BoundingBox")]), descr="never equal to None / int / str / unrelated tuple",
